@@ -32,7 +32,7 @@ OpJson(o) ==
     [] o.op = "end"    -> [op |-> "end", how |-> o.how]
     [] OTHER           -> [op |-> o.op]
 
-GenInit == InitPred /\ hist = <<>> /\ dcur = InitStateDev(DevNames)
+GenInit == InitPred /\ hist = <<>> /\ dcur = InitStateDev(DevNames, sconf.sc)
 
 GenNext ==
   /\ Len(hist) < MaxOps
@@ -48,14 +48,19 @@ GenSpec == GenInit /\ [][GenNext]_gvars
 Differs(h) == \E i \in 1..Len(h) : h[i].proj # h[i].dproj
 
 CaseIn(h) == [kind |-> "stream",
-              cfg |-> [rt |-> RT, idle |-> IdleCfg, nreq |-> MaxReq],
+              cfg |-> [conf |-> sconf.sc, nreq |-> MaxReq],
               ops |-> [i \in 1..Len(h) |-> OpJson(h[i].op)]]
 
+\* eff: what the getters of the configuration object say (carried by the
+\* first projection only)
+WithEff(pr, i) == IF i = 1 THEN [out |-> pr.out, done |-> pr.done, closed |-> pr.closed,
+                                 partial |-> pr.partial, eff |-> sconf.eff]
+                  ELSE pr
 CaseOf(h) ==
   IF Differs(h)
-  THEN ToJson([in |-> CaseIn(h), exp |-> [i \in 1..Len(h) |-> h[i].proj],
-               dev |-> [D_stream_response_timeout_ignored |-> [i \in 1..Len(h) |-> h[i].dproj]]])
-  ELSE ToJson([in |-> CaseIn(h), exp |-> [i \in 1..Len(h) |-> h[i].proj]])
+  THEN ToJson([in |-> CaseIn(h), exp |-> [i \in 1..Len(h) |-> WithEff(h[i].proj, i)],
+               dev |-> [D_stream_response_timeout_ignored |-> [i \in 1..Len(h) |-> WithEff(h[i].dproj, i)]]])
+  ELSE ToJson([in |-> CaseIn(h), exp |-> [i \in 1..Len(h) |-> WithEff(h[i].proj, i)]])
 
 \* evaluated on every transition TLC generates, also those into known states
 EmitTransition == PrintT("CASE " \o CaseOf(hist'))
@@ -70,5 +75,5 @@ DoneClass == [r \in Reqs |-> IF done[r] = <<>> THEN "none"
 \* the path, the deviant twin, what was written and which message exactly
 \* was delivered do not influence what the transport does next
 GenView == <<vec, count, curr, state, keepalive, idle, wfail, wstall, reqmsg, chan, peerOpen,
-             handles, closed, asked, sent, DoneClass, nsub, nframes>>
+             handles, closed, asked, sent, DoneClass, nsub, nframes, sconf, tsel>>
 =============================================================================
